@@ -350,7 +350,7 @@ def open_measured(pm, pexc, data, file_faults, step_limit, measure_mem):
 
 def execute(plan):
     env = plan['env']
-    w = W.World(plan['seed'], tz=env['tz'], clock0=env['clock0'], clock_mode=env['clock_mode'], cache=env['cache'])
+    w = W.World(plan['seed'], tz=env['tz'], clock0=env['clock0'], clock_mode=env['clock_mode'], cache=env['cache'], max_extent=env.get('max_extent'))
     ctx = _Ctx()
     h = hashlib.blake2b(digest_size=16)
     triples = set()
